@@ -81,7 +81,8 @@ def main(argv):
     problems = []
     if total.evaluations == 0:
         problems.append('no case was evaluated')
-    if hasattr(mod, 'sanity'):
+    if hasattr(mod, 'sanity') and total.nviol == 0:
+        # vacuity guard for runs that would otherwise report success
         problems.extend(mod.sanity(total, args.tier) or [])
     if problems and not args.only:
         print('HARNESS-ERROR property=%s %s' % (prop, '; '.join(problems)))
